@@ -11,13 +11,15 @@
 #   kani:       {tier: [harness,...]}
 PROPS = {
     'C06': {
-        'units': ['unify'],
+        'units': ['unify', 'solver_ext', 'compare', 'listops', 'append'],
         'functions': ['unifiable.rs::Unifiable::unify'],
         'oracles': {'#mgu': 'c06_mgu', '#args_mgu_inv': 'c06_mgu', '#list_mgu_inv': 'c06_mgu', '#args_mgu_step': 'c06_mgu', '#sound': 'c06_mgu', '#args_sound_inv': 'c06_mgu', '#bind_sound': 'c06_mgu', '#list_sound_inv': 'c06_mgu',
-                    '#list_sound_step': 'c06_mgu', '#list_sound_exits': 'c06_mgu', '*': 'c06_keeps'},
+                    '#list_sound_step': 'c06_mgu', '#list_sound_exits': 'c06_mgu', '*': 'c06_keeps',
+                    '#answer_extends': 'c01_prog', '#keeps_bindings': 'c01_prog', '#ext_kept': 'c01_prog', '#ext_inv': 'c01_prog', '#bindings_fixed': 'c01_prog'},
         'bounded': [('c06_mgu', 'supplementary to the proof (soundness, completeness and generality are all under proof): success exactly when a unifier exists, identical when resolved, no more bindings than an MGU - against a reference unifier: '
                                 '22 terms (atoms, numbers, variables, $_, complex terms, lists with and without tail variables) pairwise under 7 prior substitutions; occurs-check pairs skipped')],
         'not_covered': [
+            "'keeps every earlier binding' through the search, PROVED since 8.38 (unit solver_ext; C01): every answer of a solution node extends the bindings the node was made with, the built-in predicates keep the bindings they are given (#keeps_bindings, units compare / listops / append)",
             'PROVED for all `clean` terms and substitutions (no `$_` - C09 -, no function term - C13 -, no NaN float, lists never entered at a tail-variable node): COMPLETENESS and MOST-GENERALITY in one clause (#mgu, spec/mgu.rs): '
             'for every assignment of finite value trees to variables that respects the prior bindings and gives the two terms the same value, unify succeeds and the assignment respects the resulting substitution '
             '(so unify fails only when no unifier extending the prior bindings exists, and every such unifier is an instance of the result); pairs that would need an occurs check have no finite solution and are outside the clause, as in the statement',
